@@ -5,7 +5,7 @@ import N0Verif.Val
   (`split_with_escape`, `deserialize_list`, `deserialize_key_value`, `deserialize_dict`,
   `serialize_dict`, `unescape`) — property C17.
 
-  The model follows the code **with the fix patches `fixes/C17-a … C17-e` applied**:
+  The model follows the code **with the fix patches `fixes/C17-a … C17-e`, `C17-h` applied**:
   * C17-a  the last item is trimmed according to its own escape run (`separated_items[-1]`, not the
            loop variable `item`, which is unbound when the `for` body never ran);
   * C17-b  `serialize_dict` writes reserved characters as `\xNN` with two hex digits;
@@ -13,7 +13,9 @@ import N0Verif.Val
   * C17-d  the halved escape run is written with `escape_character`, not with a literal backslash;
   * C17-e  `unescape` hands `unicode_escape` Latin-1 bytes (other characters as `\uNNNN` escapes)
            instead of UTF-8 bytes, and `serialize_dict` writes a reserved character above U+00FF as
-           `\uNNNN` / `\UNNNNNNNN` instead of `\x` followed by more than two digits.
+           `\uNNNN` / `\UNNNNNNNN` instead of `\x` followed by more than two digits;
+  * C17-h  `unescape` returns a value that is neither a string nor a list / dict (`None`, numbers)
+           unchanged instead of calling `.copy()` on it.
 
   Scope: the escape character is `None`/`''` (`none`) or one character; delimiters and equal tags
   are arbitrary strings (the empty one raises `ValueError`, as `str.split` does); `maxsplit` is a
@@ -416,13 +418,19 @@ def unescape (s : Str) : Except UErr Str :=
   let b := toBytes s
   unescB b.length b
 
-/-- `unescape(d)` for a dict whose values are strings or `None` (`None.copy()` fails) -/
-def unescapeDict : List (Str × Option Str) → Except UErr (List (Str × Str))
+/-- `unescape(v)` for a value that is a string or `None`; fix C17-h: a value that is neither a
+string nor a list / dict (`None`, a number, a bool — e.g. the default value of a key without `=`)
+is returned as it is (before the fix `None.copy()` raised `AttributeError`) -/
+def unescapeOpt : Option Str → Except UErr (Option Str)
+  | none => .ok none
+  | some v => (unescape v).map some
+
+/-- `unescape(d)` for a dict whose values are strings or `None` -/
+def unescapeDict : List (Str × Option Str) → Except UErr (List (Str × Option Str))
   | [] => .ok []
-  | (k, some v) :: r =>
-    match unescape v with
+  | (k, v) :: r =>
+    match unescapeOpt v with
     | .error e => .error e
     | .ok v' => (unescapeDict r).map ((k, v') :: ·)
-  | (_, none) :: _ => .error .AttributeError
 
 end N0.Esc
